@@ -16,6 +16,7 @@ type vstore struct {
 	s       *Store[int, int]
 	ls      *LoadingStore[int, int]
 	pending []WriteBufItem[int, int]
+	loads   int      // loading Gets issued in this history
 	notes   []string // notifications of the current op: key value reason
 	tr      *vtrace
 	now     int64
@@ -173,6 +174,7 @@ func (v *vstore) lget(key int, lerr bool, lval int, lcost, lttl int64) {
 	v.lerr, v.lval, v.lcost, v.lttl = lerr, lval, lcost, lttl
 	before := v.resident(key)
 	calls := v.lcalls
+	v.loads++
 	val, err := v.ls.Get(context.Background(), key)
 	v.pull()
 	v.gets++
@@ -342,6 +344,9 @@ func (v *vstore) checkDrained() {
 	})
 	if bad != "" {
 		v.tr.viol("C02: drained: " + bad)
+		if v.loads > 0 {
+			v.tr.viol("C13: a loaded value was not handed to the policy as the equivalent Set would have been (" + fmt.Sprint(v.loads) + " loads so far in this history): after the writes have drained, " + bad)
+		}
 	}
 	est := int64(v.s.EstimatedSize())
 	if sum != est {
